@@ -55,6 +55,8 @@ def build(kind, r):
             uv = np.round(rs.uniform(0, 1, (len(V), 2)), 4)
             mat = trimesh.visual.material.SimpleMaterial(image=_img(r["salt"]), diffuse=[200, 100, 50, 255]) if r.get("material") != "pbr" else trimesh.visual.material.PBRMaterial(baseColorTexture=_img(r["salt"]), baseColorFactor=[200, 100, 50, 255], metallicFactor=0.25, emissiveFactor=[0.1, 0.2, 0.3])
             m.visual = trimesh.visual.TextureVisuals(uv=uv, material=mat)
+            if r.get("uv2"):
+                m.visual.vertex_attributes["uv_1"] = np.round(rs.uniform(0, 1, (len(V), 2)), 4)
         elif r.get("colors") == "vertex":
             m.visual.vertex_colors = np.column_stack([rs.randint(0, 256, (len(V), 3)), np.full(len(V), 255)]).astype(np.uint8)
         elif r.get("colors") == "face":
@@ -129,7 +131,11 @@ def build(kind, r):
         if r.get("camera"):
             from trimesh.scene.cameras import Camera
 
-            sc.camera = Camera(name="cam", resolution=(320, 240), fov=(50.0, 40.0), z_near=0.05, z_far=500.0)
+            if r.get("camera") == "focal":
+                # a camera defined by its focal length (the field of view is then the derived quantity, and follows the resolution)
+                sc.camera = Camera(name="cam", resolution=(320, 240), focal=(400.0, 380.0), z_near=0.05, z_far=500.0)
+            else:
+                sc.camera = Camera(name="cam", resolution=(320, 240), fov=(50.0, 40.0), z_near=0.05, z_far=500.0)
             sc.camera_transform = mx.hom(mx.rodrigues([0, 1, 0], 0.4), [0.5, 0.25, 6.0])
         if r.get("lights"):
             from trimesh.scene import lighting
@@ -183,6 +189,7 @@ def _visual(m):
         out["derived_face_colors" if v.kind == "vertex" else "derived_vertex_colors"] = np.array(v.face_colors if v.kind == "vertex" else v.vertex_colors)
     elif v.kind == "texture":
         out["uv"] = np.array(v.uv)
+        out["channels"] = {str(k): np.array(val) for k, val in v.vertex_attributes.items() if str(k) != "uv"}
         mat = v.material
         out["material"] = type(mat).__name__
         out["main_color"] = np.array(mat.main_color)
@@ -285,7 +292,7 @@ def preread(kind, o, name):
 # ----------------------------------------------------------------------------- edits
 EDITS = {
     "mesh": ["v_item", "v_iadd", "f_flip", "apply_transform", "apply_scale", "color_item", "meta_nested", "meta_new", "attr_item", "density", "center_mass", "update_faces", "invert", "merge_vertices", "assign_vertices", "v_sort", "visual_assign", "color_other_item"],
-    "mesh_texture": ["v_item", "apply_transform", "uv_item", "material_color", "image_pixel", "meta_nested", "update_faces", "material_color_inplace"],
+    "mesh_texture": ["v_item", "apply_transform", "uv_item", "material_color", "image_pixel", "meta_nested", "update_faces", "material_color_inplace", "uv2_item"],
     "primitive": ["param_set", "param_inplace", "transform_inplace", "apply_transform", "apply_scale", "meta_nested", "density", "apply_translation"],
     "path2d": ["v_item", "entity_points", "entity_color", "entity_layer", "apply_transform", "meta_nested", "entity_reverse", "v_iadd", "vattr_item"],
     "path3d": ["v_item", "entity_points", "entity_color", "entity_layer", "apply_transform", "meta_nested", "v_iadd", "vattr_item"],
@@ -361,6 +368,10 @@ def apply_edit(kind, o, e):
             o.merge_vertices(merge_norm=True, merge_tex=True)
         elif k == "uv_item":
             o.visual.uv[i % nv, 0] += d
+        elif k == "uv2_item":
+            if "uv_1" not in o.visual.vertex_attributes:
+                raise Inapplicable()
+            o.visual.vertex_attributes["uv_1"][i % nv, 1] += d
         elif k == "material_color":
             mat = o.visual.material
             if hasattr(mat, "diffuse"):
@@ -628,6 +639,7 @@ class C17(World):
             r.update({"colors": rng.choice([None, "vertex", "face"]), "attributes": rng.random() < 0.5, "density": rng.choice([None, 2.5]), "center_mass": rng.choice([None, [0.1, 0.2, 0.3]])})
         if kind == "mesh_texture":
             r["material"] = rng.choice(["simple", "pbr"])
+            r["uv2"] = rng.random() < 0.5
         if kind == "primitive":
             r.update({"prim": rng.choice(PRIMS), "placed": rng.random() < 0.6, "extents": [round(rng.uniform(0.5, 3), 3) for _ in range(3)], "radius": round(rng.uniform(0.4, 2.5), 3), "height": round(rng.uniform(0.5, 4), 3),
                       "sections": rng.choice([3, 5, 8, 32]), "subdivisions": rng.choice([0, 1, 2]), "hole": rng.random() < 0.5, "density": rng.choice([None, 2.5])})
@@ -636,7 +648,7 @@ class C17(World):
         if kind == "scene":
             r["points"] = rng.random() < 0.4
             r["edge_meta"] = rng.random() < 0.7
-            r["camera"] = rng.random() < 0.4
+            r["camera"] = rng.choice([None, None, None, "fov", "focal"])
             r["lights"] = rng.random() < 0.3
         if kind in ("path2d", "path3d"):
             r["vattr"] = rng.random() < 0.5
